@@ -61,8 +61,13 @@ func startWriterThen(w *world, conn *websocket.Conn, i int, script string, f int
 			m.kind = 'F'
 		}
 		mine = append(mine, m)
-		*msgs = append(*msgs, m)
 	}
+	startWriterMsgs(w, conn, i, mine, f, msgs, inCall, then)
+}
+
+// startWriterMsgs starts writer thread i, which hands the prepared messages to conn one by one.
+func startWriterMsgs(w *world, conn *websocket.Conn, i int, mine []*outMsg, f int, msgs *[]*outMsg, inCall *int, then func()) {
+	*msgs = append(*msgs, mine...)
 	vsched.GoNamed(fmt.Sprintf("writer%d", i), func() {
 		for _, m := range mine {
 			m.call = w.tick()
@@ -160,6 +165,9 @@ func interleaveOpportunities(fc *fakeConn, msgs []*outMsg) int {
 }
 
 func ownsWrite(m *outMsg, wr wrec) bool {
+	if wr.attributed {
+		return wr.owner == m
+	}
 	// the payload bytes of a frame are a slice of the payload of the message it belongs to
 	if len(wr.data) < 2 {
 		return false
